@@ -45,6 +45,10 @@ func commit(rootGoitPath string, index *store.Index, head *store.Head, conf *sto
 	var data []byte
 	branchPath := filepath.Join(rootGoitPath, "refs", "heads", head.Reference)
 	branchBytes, err := os.ReadFile(branchPath)
+	if err != nil && !os.IsNotExist(err) {
+		// only a missing branch file means "initial commit"; any other failure must not drop the parent
+		return fmt.Errorf("%w: %s", ErrIOHandling, branchPath)
+	}
 	author := object.NewSign(conf.GetUserName(), conf.GetEmail())
 	committer := author
 	if err != nil {
